@@ -570,10 +570,92 @@ var (
 	c12Names = []string{"foo", "bar", "d/foo", "../foo", "a/../b", "./foo", "foo/..", "é", "a//b"}
 )
 
+// c12AliasCases: cores WITH the policy cache (the other cases run with DisableCache, which also turns the policy store's
+// LRU off). Namespace A holds a c12rec mount with a value and a policy p that grants it; p is in the cache (a token of A
+// has used it). A token is then requested in namespace B with the policy name "../<uuid of A>/p" — the name a cleaning
+// join of namespace UUID and policy name would turn into A's p. Op lines (one case each):
+//   aliascase                        => ok
+//   aliastoken <B hex> <A hex>       => refused | created
+//   aliasread  <B hex> <A hex>       => denied | ok:<value> ...   (only when the token was created)
+func c12AliasCases(t *testing.T, out *vh.Out) {
+	shapes := [][2]string{{"b/", "a/"}, {"a/b/", "a/"}, {"b/", "b/a/"}, {"b/", ""}, {"b/c/", "a/"}}
+	for _, sh := range shapes {
+		out.Reset()
+		out.Op("ok", "aliascase")
+		p := vhNewPhys(t)
+		c, _, root := vhNewCore(t, p, nil, func(conf *CoreConfig) {
+			conf.LogicalBackends["c12rec"] = c12RecFactory
+			conf.DisableCache = false
+		})
+		req := func(op logical.Operation, path, tok string, data map[string]any) (*logical.Response, error) {
+			r := &logical.Request{Operation: op, Path: path, ClientToken: tok, Data: data}
+			r.SetTokenEntry(nil)
+			return c.HandleRequest(vhRootCtx(), r)
+		}
+		must := func(what string, resp *logical.Response, err error) *logical.Response {
+			if err != nil || (resp != nil && resp.IsError()) {
+				t.Fatalf("c12 alias %s: %v %#v", what, err, resp)
+			}
+			return resp
+		}
+		uuidOf := map[string]string{"": namespace.RootNamespaceUUID}
+		mk := func(path string) {
+			if path == "" || uuidOf[path] != "" {
+				return
+			}
+			segs := strings.Split(strings.TrimSuffix(path, "/"), "/")
+			parent := strings.Join(segs[:len(segs)-1], "/")
+			if parent != "" {
+				parent += "/"
+			}
+			r, err := req(logical.UpdateOperation, parent+"sys/namespaces/"+segs[len(segs)-1], root, nil)
+			resp := must("namespace "+path, r, err)
+			uuidOf[path], _ = resp.Data["uuid"].(string)
+		}
+		for _, nsp := range []string{sh[0], sh[1]} {
+			segs := strings.Split(strings.TrimSuffix(nsp, "/"), "/")
+			for i := range segs {
+				if nsp != "" {
+					mk(strings.Join(segs[:i+1], "/") + "/")
+				}
+			}
+		}
+		B, A := sh[0], sh[1]
+		r, err := req(logical.UpdateOperation, A+"sys/mounts/m1", root, map[string]any{"type": "c12rec"})
+		must("mount", r, err)
+		r, err = req(logical.UpdateOperation, A+"m1/raw/k", root, map[string]any{"skey": "x", "value": "secret-of-A"})
+		must("write", r, err)
+		r, err = req(logical.UpdateOperation, A+"sys/policies/acl/p", root, map[string]any{"policy": `path "m1/*" { capabilities = ["read","update","list"] }
+path "m1" { capabilities = ["read","update","list"] }`})
+		must("policy", r, err)
+		r, err = req(logical.UpdateOperation, A+"auth/token/create", root, map[string]any{"policies": []string{"p"}, "ttl": "1h", "no_default_policy": true})
+		ta := must("token of A", r, err).Auth.ClientToken
+		r, err = req(logical.ReadOperation, A+"m1/raw/k", ta, map[string]any{"skey": "x"})
+		must("read by A's token", r, err)
+		// the alias
+		r, err = req(logical.UpdateOperation, B+"auth/token/create", root, map[string]any{"policies": []string{"../" + uuidOf[A] + "/p"}, "ttl": "1h", "no_default_policy": true})
+		if err != nil || r == nil || r.IsError() || r.Auth == nil || r.Auth.ClientToken == "" {
+			out.Op("refused", "aliastoken", vh.HexS(B), vh.HexS(A))
+			_ = c.Shutdown()
+			continue
+		}
+		out.Op("created", "aliastoken", vh.HexS(B), vh.HexS(A))
+		r, err = req(logical.ReadOperation, A+"m1/raw/k", r.Auth.ClientToken, map[string]any{"skey": "x"})
+		res := "denied"
+		if err == nil && r != nil && !r.IsError() {
+			v, _ := r.Data["value"].(string)
+			res = "ok:" + vh.HexS(v) + "!VIOL:a token of namespace " + B + " read data of namespace " + A + " through the policy NAME ../<uuid>/p, a policy that is not defined in its namespace#policy-name-alias-cross-namespace"
+		}
+		out.Op(res, "aliasread", vh.HexS(B), vh.HexS(A))
+		_ = c.Shutdown()
+	}
+}
+
 func TestVerifC12Confine(t *testing.T) {
 	out := vh.Open()
 	defer out.Close()
 	rng := vh.NewRand(vh.Seed())
+	c12AliasCases(t, out)
 	cases := vh.EnvInt("VERIF_C12_CASES", 120)
 	nreq := 140
 	if vh.Thorough() {
